@@ -158,6 +158,11 @@ fn parse_ifdata_item(
             let mut seqitems = Vec::new();
             let mut checkpoint = parser.get_tokenpos();
             while let Ok(item) = parse_ifdata_item(parser, context, seqspec) {
+                if parser.get_tokenpos() == checkpoint {
+                    // the sequence element matched without consuming any input, e.g. an empty taggedstruct;
+                    // repeating this would never terminate
+                    break;
+                }
                 seqitems.push(item);
                 checkpoint = parser.get_tokenpos();
             }
